@@ -51,6 +51,17 @@ def histories(tier):
     tsprops = [['t%d' % i, 'TimeStamp', v.hex()] for i, v in enumerate(G.POOLS['TimeStamp'])]   # includes pre-1904 (negative seconds)
     out.append(('props', [G.seg([('/', ['NODATA'], tsprops), (A, full('TimeStamp', 2), tsprops)]),
                           G.seg([(A, ['SAME'], tsprops[::-1])], newlist=False)]))
+    # mirror pairs: each value next to the value whose little-endian bytes are its big-endian bytes (1 and 16777216 as Int32):
+    # the same byte string then means different values in segments of different byte order, in one file and in one process
+    mirror = []
+    for t in G.PROP_TYPES:
+        if t in ('String', 'Boolean', 'TimeStamp') or G.TYPES[t][1] == 1:   # (a mirrored timestamp is outside datetime64[us])
+            continue
+        for i, v in enumerate(G.POOLS[t][:4] + ([(1).to_bytes(G.TYPES[t][1], 'little')] if (G.TYPES[t][2] or '-') in 'hiqHIQ' else [])):
+            if v != v[::-1]:
+                mirror += [['m%d_%s' % (i, t), t, v.hex()], ['w%d_%s' % (i, t), t, v[::-1].hex()]]
+    out.append(('props-mirror', [G.seg([('/', ['NODATA'], mirror), (A, full('Int32', 1), mirror[:8])]),
+                                 G.seg([('/', ['NODATA'], mirror[::-1]), (A, ['SAME'], mirror[8:16])], newlist=False)]))
     for code in G.DAQMX_TYPES:
         size = G.DAQMX_TYPES[code][0]
         sc = [(code, 0, 1, 0, 0), (3, 0, size + 1, 0, 1)]
